@@ -10,6 +10,8 @@ Writes a copy of <repo>/internal/auth/auth.go in which
     am.db.Query/QueryContext call) and its error check have passed, and
     verifSched("verify:before-insert") right before every am.cacheMu.Lock() that
     follows the query (the cache insert) - wherever those landmarks sit;
+  * every other function of auth.go calls verifSched("cache-lock:<func>") before
+    each am.cacheMu.Lock() it takes (helpers on VerifyToken's hit path);
   * InvalidateCache calls verifSched("invalidate:enter") before taking the lock and
     verifSched("invalidate:exit") after the cache was replaced;
   * every time.Now()/time.Since(/time.Until( goes through verifNow() (clock seam),
@@ -139,6 +141,10 @@ def instrument_verify(body):
            (after_query, ind + 'verifSched("verify:after-query")\n')]
     for m in locks:
         ins.append((line_start(body, m.start()), indent_at(body, m.start()) + 'verifSched("verify:before-insert")\n'))
+    # a write lock taken on the hit path (before the miss point) gets its own point
+    for m in re.finditer(r"^[ \t]*am\.cacheMu\.Lock\(\)[ \t]*$", body, re.M):
+        if m.start() < miss_pos:
+            ins.append((line_start(body, m.start()), indent_at(body, m.start()) + 'verifSched("verify:hit-path-lock")\n'))
     for at, text in sorted(ins, reverse=True):
         body = body[:at] + text + body[at:]
     return body, len(locks)
@@ -234,6 +240,26 @@ def main():
                        "InvalidateCache unlock")
     src = src[:b0] + body + src[b1:]
 
+    # --- every other function of the file that takes the cache write lock
+    # (helpers VerifyToken may call between its lookup and its return, e.g. a
+    # re-insert on the hit path): a point before each am.cacheMu.Lock()
+    nother = 0
+    heads = list(re.finditer(r"^func (?:\([^)]*\) )?(\w+)\(.*\{[ \t]*$", src, re.M))
+    for h in reversed(heads):
+        name = h.group(1)
+        if name in ("VerifyToken", "InvalidateCache"):
+            continue
+        o = h.end() - 1 - (len(h.group(0)) - len(h.group(0).rstrip()))
+        o = src.rindex("{", h.start(), h.end())
+        c = match_close(src, o, "func " + name)
+        fb = src[o + 1:c]
+        ms = list(re.finditer(r"^[ \t]*am\.cacheMu\.Lock\(\)[ \t]*$", fb, re.M))
+        for m in reversed(ms):
+            at = line_start(fb, m.start())
+            fb = fb[:at] + indent_at(fb, m.start()) + 'verifSched("cache-lock:%s")\n' % name + fb[at:]
+            nother += 1
+        src = src[:o + 1] + fb + src[c:]
+
     # --- clock seam
     n = 0
     for pat, rep in ((r"\btime\.Now\(\)", "verifNow()"), (r"\btime\.Since\(", "verifSince("), (r"\btime\.Until\(", "verifUntil(")):
@@ -254,7 +280,7 @@ def main():
         f.write(HELPER)
     print("OVERLAY %s %s" % (rel, dst))
     print("OVERLAY internal/auth/zz_verif_sched.go %s" % helper)
-    sys.stderr.write("c21_sched: %d schedule points, %d clock reads rewritten\n" % (4 + nlocks, n))
+    sys.stderr.write("c21_sched: %d schedule points, %d clock reads rewritten\n" % (4 + nlocks + nother, n))
 
 
 if __name__ == "__main__":
